@@ -50,6 +50,7 @@ type Type struct {
 	Variadic bool    `json:",omitempty"`
 	Fields   []Field `json:",omitempty"` // struct: exported fields
 	PtrRecv  bool    `json:",omitempty"` // iface methods of this struct use pointer receivers
+	NoHash   bool    `json:",omitempty"` // struct without hidden hash field: its hash is derived from its fields (wire.Struct targets)
 	Impl     TypeID  `json:",omitempty"` // iface: a type implementing it (struct or ptr)
 	AlsoImpl []TypeID `json:",omitempty"` // struct: further interfaces it implements (value receiver)
 	Method   string  `json:",omitempty"` // iface: marker method name
